@@ -16,6 +16,7 @@ import (
 	"github.com/folbricht/desync"
 
 	"verif/dsu"
+	"verif/fakes"
 	"verif/harness"
 	"verif/oracle"
 )
@@ -73,7 +74,7 @@ type scenario struct {
 func makeScenario(seed int64, s int, tier string) scenario {
 	rng := harness.CaseRng(seed^0x5eed, s)
 	var sc scenario
-	sc.op = []string{"chop", "chop", "copy", "chunkstream", "chop-stale", "cli"}[rng.Intn(6)]
+	sc.op = []string{"chop", "chop", "copy", "chunkstream", "chop-stale", "cli", "s3"}[rng.Intn(7)]
 	sc.sz = dsu.SmallSizes[rng.Intn(3)]
 	sc.n = []int{1, 2, 4, 16}[rng.Intn(4)]
 	sc.dup = rng.Intn(2) == 0
@@ -112,6 +113,10 @@ func run(c *harness.Ctx, i int) {
 	sc := makeScenario(c.Seed, s, c.Tier)
 	if sc.op == "cli" {
 		runCLI(c, sc, s, slot)
+		return
+	}
+	if sc.op == "s3" {
+		runS3(c, sc, s, slot)
 		return
 	}
 	// fault plan of the slot
@@ -401,4 +406,59 @@ func runCLI(c *harness.Ctx, sc scenario, s, slot int) {
 	}
 	c.Sample(map[string]interface{}{"op": "cli:" + cmdName, "chunks": len(sc.idx.Chunks), "n": sc.n, "fault": fmt.Sprintf("%s@%d", method, fk), "delivered": nd, "exit_error": fmt.Sprint(err),
 		"requests": map[string]int64{"HEAD": counts[0], "PUT": counts[1], "GET": counts[2]}})
+}
+
+// runS3: bulk writers into an S3 store (fake endpoint) with every error-retry setting: success means the objects are there.
+func runS3(c *harness.Ctx, sc scenario, s, slot int) {
+	if slot >= 10 {
+		c.Info("scenario=%d op=s3 slot=%d skipped", s, slot)
+		return
+	}
+	retry := []int{0, 1, 3}[slot%3]
+	uncompressed := slot%2 == 0
+	what := []string{"chop", "chunkstream", "copy"}[slot%3]
+	c.Info("scenario=%d op=s3:%s chunks=%d n=%d error-retry=%d uncompressed=%v", s, what, len(sc.idx.Chunks), sc.n, retry, uncompressed)
+	c.LogInfo()
+	f := fakes.NewS3("bucket")
+	defer f.Close()
+	st, err := desync.NewS3Store(f.URL("pre"), fakes.Creds(), fakes.Region, desync.StoreOptions{ErrorRetry: retry, Uncompressed: uncompressed}, fakes.Lookup)
+	dsu.Must(err)
+	dir := c.CaseDir()
+	switch what {
+	case "chop":
+		file := filepath.Join(dir, "blob")
+		dsu.WriteFile(file, sc.blob)
+		err = desync.ChopFile(context.Background(), file, sc.idx.Chunks, st, sc.n, &dsu.CountPB{})
+	case "chunkstream":
+		ch, cerr := desync.NewChunker(bytes.NewReader(sc.blob), sc.sz.Min, sc.sz.Avg, sc.sz.Max)
+		dsu.Must(cerr)
+		_, err = desync.ChunkStream(context.Background(), ch, st, sc.n)
+	case "copy":
+		src := dsu.NewMemStore("src")
+		var ids []desync.ChunkID
+		for _, ch := range sc.idx.Chunks {
+			src.PutRaw(ch.ID, sc.blob[ch.Start:ch.Start+ch.Size])
+			ids = append(ids, ch.ID)
+		}
+		err = desync.Copy(context.Background(), ids, src, st, sc.n, &dsu.CountPB{})
+	}
+	c.Count("s3_runs", 1)
+	if err != nil {
+		c.Violation("failed-without-fault:s3-"+what, "%s into a healthy S3 store (error-retry %d) failed: %v", what, retry, err)
+		return
+	}
+	fresh, _ := desync.NewS3Store(f.URL("pre"), fakes.Creds(), fakes.Region, desync.StoreOptions{ErrorRetry: 1, Uncompressed: uncompressed}, fakes.Lookup)
+	for k, ch := range sc.idx.Chunks {
+		got, gerr := fresh.GetChunk(ch.ID)
+		if gerr != nil {
+			c.Violation("missing-after-success:s3-"+what, "%s into S3 with error-retry %d reported success but chunk %d (%x) cannot be read back: %v (%d objects stored)", what, retry, k, ch.ID[:4], gerr, len(f.Keys()))
+			return
+		}
+		if b, _ := got.Data(); !bytes.Equal(b, sc.blob[ch.Start:ch.Start+ch.Size]) {
+			c.Violation("invalid-after-success:s3-"+what, "chunk %d read back differs", k)
+			return
+		}
+	}
+	c.NonTrivial("s3|%s|n%d|r%d|u%v", what, sc.n, retry, uncompressed)
+	c.Sample(map[string]interface{}{"op": "s3:" + what, "chunks": len(sc.idx.Chunks), "n": sc.n, "error_retry": retry, "objects": len(f.Keys())})
 }
